@@ -309,6 +309,8 @@ class Fn:
                 and zlib.crc32(repr((base, args)).encode()) % self.none_mod == 0:
             return None
         if self.n_out == 1:
+            if self.seq_out == "list" and self.out_shape is None:
+                return [Term(base, args, "a"), Term(base, args, "b")]  # a mutable sequence: the caller may edit it later
             if self.seq_out and self.out_shape is None:
                 return (Term(base, args, "a"), Term(base, args, "b"))
             if self.result_like and self.out_shape is None:
